@@ -159,8 +159,7 @@ def run_config(c, cfg):
     qdt = TIMES[1] - TIMES[0]
     states = set()
     nviol = [0]
-    from bioscrape.simulator import ArrayDelayQueue
-    template = ArrayDelayQueue.setup_queue(len(sp['reactions']), len(TIMES), qdt)
+    template = e1.TemplateQueue(len(sp['reactions']), len(TIMES), qdt)
 
     def impl_run(us):
         if sim == 'ssa':
@@ -175,6 +174,10 @@ def run_config(c, cfg):
         if sim == 'delay':
             # differential: the same script on a queue that is a copy of the shared template and on a brand-new queue
             fresh_q = e1.run_delay(impl, us, TIMES, qdt, len(TIMES), dt=qdt)
+            if got.get('template_touched'):
+                c.violation('C06/delay/%s/%s/template-copy-differs' % ('safe' if cfg['safe'] else 'plain', sp['name']),
+                            'a run on a py_copy() of the template queue wrote into the template itself (copies must be independent)',
+                            dict(cfg=cfg, us=us, rows=got['rows'], source=tag, letters=letters))
             if fresh_q['rows'] != got['rows'] or fresh_q['queue'] != got['queue']:
                 c.violation('C06/delay/%s/%s/template-copy-differs' % ('safe' if cfg['safe'] else 'plain', sp['name']),
                             'the same script gives %s on a copy of the template queue and %s on a new queue (copies must be independent)' % (
